@@ -29,6 +29,7 @@ import (
 	"github.com/restic/restic/internal/backend/mem"
 	"github.com/restic/restic/internal/restic"
 	"github.com/restic/restic/internal/verifkit"
+	"pgregory.net/rapid"
 )
 
 var typesC30 = []backend.FileType{backend.ConfigFile, backend.KeyFile, backend.SnapshotFile, backend.IndexFile, backend.PackFile, backend.LockFile}
@@ -39,6 +40,8 @@ type caseC30 struct {
 	Version uint   `json:"version"`
 	Pol     string `json:"pol"` // random|given|reducible
 	PerType int    `json:"per_type"`
+	// Password is only set by the random variant; empty means "derive from the case"
+	Password string `json:"password,omitempty"`
 }
 
 func (c caseC30) String() string {
@@ -104,7 +107,7 @@ func secondIrreducibleC30() chunker.Pol {
 	}
 }
 
-func runCaseC30(t *testing.T, st *verifkit.Stats, c caseC30, given chunker.Pol, seenIDs map[string]string) string {
+func runCaseC30(t testing.TB, st *verifkit.Stats, c caseC30, given chunker.Pol, seenIDs map[string]string) string {
 	ctx := context.Background()
 	be := mem.New()
 	// pre-existing files: arbitrary bytes under plausible names
@@ -141,7 +144,10 @@ func runCaseC30(t *testing.T, st *verifkit.Stats, c caseC30, given chunker.Pol, 
 		p := chunker.Pol(0x3DA3358B4DC173 + 1) // even: divisible by x
 		pol = &p
 	}
-	password := fmt.Sprintf("pw-%d-%d-%s", c.Subset, c.Version, c.Pol)
+	password := c.Password
+	if password == "" {
+		password = fmt.Sprintf("pw-%d-%d-%s", c.Subset, c.Version, c.Pol)
+	}
 	initErr := repo.Init(ctx, c.Version, password, pol)
 	after := dumpBackendC30(t, be)
 	changed, added := diffDumpC30(before, after)
@@ -291,4 +297,35 @@ func TestVerifC30Init(t *testing.T) {
 		}
 	}
 	st.Note("distinct_config_ids", len(seenIDs))
+}
+
+// Random variant over a wider product: versions 0..6 and huge, up to three files per type, drawn
+// passwords (long, non-ASCII, with NUL), same oracle.
+func TestVerifC30InitRandom(t *testing.T) {
+	if verifkit.ReplayFile() != "" && !strings.HasSuffix(verifkit.ReplayFile(), ".fail") {
+		t.Skip("JSON replays belong to TestVerifC30Init")
+	}
+	st := verifkit.Begin(t, "C30")
+	TestUseLowSecurityKDFParameters(t)
+	given := secondIrreducibleC30()
+	seenIDs := map[string]string{}
+	n := 0
+	rapid.Check(t, func(rt *rapid.T) {
+		c := caseC30{
+			Subset:   rapid.OneOf(rapid.IntRange(0, 63), rapid.SampledFrom([]int{0, 8, 16, 32, 56})).Draw(rt, "subset"),
+			Version:  rapid.OneOf(rapid.UintRange(0, 6), rapid.SampledFrom([]uint{1, 2, 1 << 31, ^uint(0)})).Draw(rt, "version"),
+			Pol:      rapid.SampledFrom([]string{"random", "given"}).Draw(rt, "pol"),
+			PerType:  rapid.IntRange(1, 3).Draw(rt, "pertype"),
+			Password: rapid.OneOf(rapid.StringN(1, 40, 200), rapid.SampledFrom([]string{"p", "pass word", "p\x00q", "пароль", strings.Repeat("long", 300)})).Draw(rt, "password"),
+		}
+		n++
+		key := ""
+		if c.Subset != 0 && c.Version >= restic.MinRepoVersion && c.Version <= restic.MaxRepoVersion {
+			key = fmt.Sprintf("random|%v|%q", c, c.Password)
+		}
+		st.Case(key, "random-variant")
+		if msg := runCaseC30(t, st, c, given, seenIDs); msg != "" {
+			rt.Fatalf("%v password %q: %s", c, c.Password, msg)
+		}
+	})
 }
